@@ -68,6 +68,20 @@ func zzStep(fs filesystem.Filespace, ref *reftree.Node, nops int) (rootGone bool
 	segs, climbs := reftree.Norm(p)
 	before := ref.Clone()
 	undefined := climbs
+	// a listing taken before the step is a snapshot
+	snap, snapErr := fs.ReadDir(".")
+	var snapNames []string
+	if snapErr == nil {
+		for _, inf := range snap {
+			snapNames = append(snapNames, inf.Name())
+		}
+		defer func() {
+			nd.Assert(len(snap) == len(snapNames), "C01/listing-snapshot-length")
+			for i, inf := range snap {
+				nd.Assert(inf.Name() == snapNames[i], "C01/listing-snapshot-changed")
+			}
+		}()
+	}
 	switch op {
 	case zzWriteFile:
 		data := nd.BytesUpTo("data", 1)
@@ -81,6 +95,11 @@ func zzStep(fs filesystem.Filespace, ref *reftree.Node, nops int) (rootGone bool
 		}
 		ok := ref.WriteFile(segs, data)
 		nd.Assert((err == nil) == ok, "C01/writefile-result")
+		// the caller's buffer is a snapshot for the filespace (create and
+		// overwrite alike): mutate it; the tree comparison below must not see it
+		if len(data) > 0 {
+			data[0] ^= 0xff
+		}
 	case zzMkdirAll:
 		err := fs.MkdirAll(p, filesystem.DefaultUnixDirMode)
 		if undefined {
@@ -126,6 +145,11 @@ func zzStep(fs filesystem.Filespace, ref *reftree.Node, nops int) (rootGone bool
 				nd.Assert(err == nil, "C01/readfile-result")
 				if err == nil {
 					nd.Assert(bytes.Equal(data, t.Data), "C01/readfile-bytes")
+					// the returned slice is the caller's: mutating it must not
+					// change the stored file (checked by the tree comparison)
+					if len(data) > 0 {
+						data[0] ^= 0xff
+					}
 				}
 			} else {
 				nd.Assert(err != nil, "C01/readfile-result")
@@ -175,6 +199,9 @@ func zzStep(fs filesystem.Filespace, ref *reftree.Node, nops int) (rootGone bool
 			nd.Assert(w.Close() == nil, "C01/writer-close")
 		}
 		all := append(append([]byte{}, c1...), c2...)
+		if len(c1) > 0 {
+			c1[0] ^= 0xff
+		}
 		if undefined || len(segs) == 0 {
 			if len(segs) > 0 {
 				ref.WriteFile(segs, all)
@@ -344,7 +371,7 @@ func ZZVerifC01View() {
 // ZZVerifC01Alias: byte slices and listings handed in or out are snapshots.
 func ZZVerifC01Alias() {
 	fs, _ := NewFilespace()
-	which := nd.Choose("template", 4)
+	which := nd.Choose("template", 5)
 	switch which {
 	case 0: // caller mutates its buffer after WriteFile
 		buf := nd.Bytes("data", 2)
@@ -378,6 +405,14 @@ func ZZVerifC01Alias() {
 		for i, inf := range list {
 			nd.Assert(inf.Name() == snap[i], "C01/alias-listing-after-remove")
 		}
+	case 4: // overwrite: the caller mutates its buffer after replacing a file
+		nd.Assume(fs.WriteFile("f", []byte("o"), filesystem.DefaultUnixFileMode) == nil)
+		buf := nd.Bytes("data", 2)
+		orig := append([]byte{}, buf...)
+		nd.Assume(fs.WriteFile("f", buf, filesystem.DefaultUnixFileMode) == nil)
+		buf[1] ^= 0xff
+		got, err := fs.ReadFile("f")
+		nd.Assert(err == nil && bytes.Equal(got, orig), "C01/alias-overwrite-buffer")
 	case 3: // a listing is a snapshot: later creations do not change it
 		nd.Assume(fs.WriteFile("f", []byte("x"), filesystem.DefaultUnixFileMode) == nil)
 		list, err := fs.ReadDir(".")
